@@ -82,7 +82,7 @@ class Statistics:
         return dataclasses.replace(
             self,
             sum=self.sum * other_scalar,
-            sum2=self.sum2 * other_scalar**2,
+            sum2=self.sum2 * other_scalar,
             weight=self.weight * other_scalar,
         )
 
